@@ -25,6 +25,9 @@ KF_BOOLRANGE = ("RangeQuery on a bool FAST field fails with InvalidArgument 'Exp
                 "range path accepts the Bool type but cannot convert its bounds (the same range on a non-fast bool field works)")
 KF_FUZZYPREFIX = ("FuzzyTermQuery::new_prefix with distance 2 is not closed under extension: a word whose proper prefix is within "
                   "distance 2 of the term is rejected when the whole word is farther (term 'aab': 'b' matches, 'bc' does not)")
+KF_UNIONMEMBER = ("an Intersection probing a union (Should clauses / dismax) that has a phrase or an intersection as a member returns documents "
+                  "that match no member: BufferedUnionScorer::seek_danger leaves a member that missed in the danger zone and later takes its "
+                  "stale position (terms of the phrase present, phrase absent) for a match")
 F7_TEXT = "a single Should clause with minimum_number_should_match >= 2 returns the clause's documents instead of nothing"
 
 
@@ -61,11 +64,44 @@ def has_fuzzy_prefix2(q):
     return False
 
 
+def may_be_intersection(q):
+    k = q.get("k")
+    if k == "bool":
+        cl = q.get("cl", [])
+        return any(c["o"] == "must" for c in cl) or q.get("msm", 0) >= 2 or any(c["o"] != "mustnot" and may_be_intersection(c["q"]) for c in cl)
+    if k == "boost":
+        return may_be_intersection(q["q"])
+    if k == "dismax":
+        return any(may_be_intersection(x) for x in q.get("qs", []))
+    return False
+
+
+def is_phrase_like(q):
+    return q.get("k") in ("phrase", "pprefix", "rphrase") or (q.get("k") in ("boost", "const") and is_phrase_like(q["q"]))
+
+
+def union_has_danger_member(q):
+    """mirror of qlib::union_has_danger_member (only used to word a rejection)"""
+    k = q.get("k")
+    if k == "bool":
+        cl = q.get("cl", [])
+        return (any(union_has_danger_member(c["q"]) for c in cl)
+                or any(c["o"] == "should" and (is_phrase_like(c["q"]) or may_be_intersection(c["q"])) for c in cl))
+    if k == "dismax":
+        return any(union_has_danger_member(x) for x in q.get("qs", [])) or any(is_phrase_like(x) or may_be_intersection(x) for x in q.get("qs", []))
+    if k in ("boost", "const"):
+        return union_has_danger_member(q["q"])
+    return False
+
+
 def classify(diag):
     if not isinstance(diag, dict) or "q" not in diag:
         return "C03: trace rejected: " + json.dumps(diag)[:300]
     q = diag["q"]
     path = diag.get("path", "?")
+    got = diag.get("got", {})
+    if union_has_danger_member(q) and may_be_intersection(q) and isinstance(got.get("count"), int) and got["count"] > diag.get("expected_count", 0):
+        return "C03 query semantics: " + KF_UNIONMEMBER + f" [{path}]"
     if has_fuzzy_prefix2(q):
         return "C03 query semantics: " + KF_FUZZYPREFIX + f" [{path}]"
     if has_single_should_msm(q):
@@ -256,6 +292,30 @@ def random_trees(ctx, runs):
         return list(ex.map(one, enumerate(runs)))
 
 
+def stale_member_queries(corpus):
+    """From the logged corpus (inputs only): a document `a` with the rare term r129 far into the segment, the document
+    before it outside the union, and the next document X in which t0 and t1 co-occur without being the phrase "t0 t1".
+    +id:{d0, a-1, a, X} +(r129 OR "t0 t1") makes the intersection probe the union with a miss (a-1) and then a hit (a)."""
+    docs, dele = corpus["docs"], set(corpus["deleted"])
+    phrase = lambda t: any(t[i] == "t0" and t[i + 1] == "t1" for i in range(len(t) - 1))
+    in_u = lambda i: i not in dele and ("r129" in docs[i]["title"] or phrase(docs[i]["title"]))
+    d0 = next((i for i in range(0, 300) if in_u(i)), None)
+    out = []
+    if d0 is None:
+        return out
+    union = {"k": "bool", "cl": [{"o": "should", "q": {"k": "term", "f": "title", "t": "r129", "opt": "freq"}},
+                                 {"o": "should", "q": {"k": "phrase", "f": "title", "ts": ["t0", "t1"], "slop": 0}}], "msm": 1, "explicit": False}
+    for a in (d["id"] for d in docs if "r129" in d["title"]):
+        if a < d0 + 4200 or a in dele or in_u(a - 1):
+            continue
+        x = next((i for i in range(a - 1, len(docs)) if "t0" in docs[i]["title"] and "t1" in docs[i]["title"]), None)
+        if x is None or x <= a or x in dele or in_u(x):
+            continue
+        out.append({"k": "bool", "cl": [{"o": "must", "q": {"k": "set", "f": "id", "ts": [d0, a - 1, a, x]}}, {"o": "must", "q": union}],
+                    "msm": 0, "explicit": False})
+    return out[:4]
+
+
 def known_finding_runs(ctx):
     qs = [
         {"k": "fuzzy", "f": "tag", "t": [1, 1, 2], "d": 2, "tr": False, "prefix": True},
@@ -268,8 +328,24 @@ def known_finding_runs(ctx):
     seen = []
     before = ctx.cov["traces_validated_against_impl"]
     validate(ctx, vlib.read_ndjson(tp), "kf", seen=seen)
+    # the stale union member: the queries are derived from the corpus of a first run (one big segment of 6,000 documents)
+    args = ["random", "--seed", 9, "--docs", 6000, "--indexes", 2, "--no-avoid"]
+    c0 = ctx.path("kf2_q0.ndjson")
+    vlib.write_ndjson(c0, [{"k": "empty"}])
+    t0 = ctx.path("kf2_trace0.ndjson")
+    vlib.run_bin("query_driver", args + ["--fixed", c0, "--out", t0], timeout=300)
+    corpus = next(e for e in vlib.read_ndjson(t0) if e.get("ev") == "corpus")
+    hunt = stale_member_queries(corpus)
+    if hunt:
+        c1 = ctx.path("kf2_queries.ndjson")
+        vlib.write_ndjson(c1, hunt)
+        t1 = ctx.path("kf2_trace.ndjson")
+        vlib.run_bin("query_driver", args + ["--fixed", c1, "--out", t1], timeout=300)
+        validate(ctx, vlib.read_ndjson(t1), "kf2", seen=seen)
     ctx.cov["traces_validated_against_impl"] = before
-    ctx.cov["recorded_findings_reproduced"] = {"bool_fast_range": any(KF_BOOLRANGE in s for s in seen), "fuzzy_prefix_distance_2": any(KF_FUZZYPREFIX in s for s in seen)}
+    ctx.cov["recorded_findings_reproduced"] = {"bool_fast_range": any(KF_BOOLRANGE in s for s in seen),
+                                               "fuzzy_prefix_distance_2": any(KF_FUZZYPREFIX in s for s in seen),
+                                               "union_stale_member": any(KF_UNIONMEMBER in s for s in seen)}
 
 
 def binding_selftest(ctx, rand_events, stripe_head):
